@@ -521,6 +521,16 @@ impl Adapter for HyraxA {
         }
         Some(true)
     }
+    /// commitments of another size than the point asks for: a surplus row (copy of the last one) / the last row dropped
+    fn mutate_comm(kind: &str, cm: &LabeledCommitment<Cm<Self>>, _args: &[String]) -> Option<LabeledCommitment<Cm<Self>>> {
+        let mut c = cm.commitment().clone();
+        match kind {
+            "extra_row" => { let l = c.row_coms.last().cloned()?; c.row_coms.push(l); }
+            "drop_row" => { if c.row_coms.len() < 2 { return None; } c.row_coms.pop(); }
+            _ => return None,
+        }
+        Some(LabeledCommitment::new(cm.label().clone(), c, cm.degree_bound()))
+    }
     fn mutate_proof(kind: &str, pf: &Pf<Self>, args: &[String]) -> Option<Pf<Self>> {
         // Pf = Vec<HyraxProof>: one proof per polynomial opened at the point
         let mut v = pf.clone();
@@ -672,6 +682,19 @@ fn lincode_proof_tokens(name: &str, pf: &Vec<ark_poly_commit::linear_codes::LinC
     }
 }
 
+/// linear-code commitments with altered metadata (the root is kept): one more row / one more column than committed
+fn lincode_mutate_comm(kind: &str, cm: &LabeledCommitment<Cm<LigeroUniA>>) -> Option<LabeledCommitment<Cm<LigeroUniA>>> {
+    use ark_poly_commit::linear_codes::verif_hooks as lh;
+    let mut c = cm.commitment().clone();
+    let (r, k, e) = lh::commitment_metadata(&c);
+    match kind {
+        "meta_rows" => lh::commitment_set_metadata(&mut c, r + 1, k, e),
+        "meta_cols" => lh::commitment_set_metadata(&mut c, r, k + 1, e),
+        _ => return None,
+    }
+    Some(LabeledCommitment::new(cm.label().clone(), c, cm.degree_bound()))
+}
+
 pub struct LigeroUniA;
 /// Ligero parameters other than the ones hard-wired in `setup` (security level, rate, well-formedness switch)
 fn lincode_shape_comm(cm: &Cm<LigeroUniA>) -> Vec<String> {
@@ -787,6 +810,7 @@ impl Adapter for LigeroUniA {
     fn point_input(j: usize, pt: &Fr, out: &mut Out) { out.input(&format!("ptvec.{}", j), &[f_to_str(pt)]); }
     fn proof_obs(name: &str, pf: &Pf<Self>, out: &mut Out) { lincode_proof_tokens(name, pf, false, out) }
     fn proof_input(name: &str, pf: &Pf<Self>, out: &mut Out) { lincode_proof_tokens(name, pf, true, out) }
+    fn mutate_comm(kind: &str, cm: &LabeledCommitment<Cm<Self>>, _args: &[String]) -> Option<LabeledCommitment<Cm<Self>>> { lincode_mutate_comm(kind, cm) }
     fn wants_sq_events() -> bool { true }
     fn reference_commitment(ck: &CK<Self>, p: &UniPoly, _b: Option<usize>, cm: &Cm<Self>, _st: &St<Self>) -> Option<bool> {
         reference_root::<UnivariateLigero<Fr, MTConfig, UniPoly, ColH<Fr>>, UniPoly>(ck, p.coeffs.clone(), cm)
@@ -818,6 +842,7 @@ impl Adapter for LigeroMLA {
     }
     fn proof_obs(name: &str, pf: &Pf<Self>, out: &mut Out) { lincode_proof_tokens(name, pf, false, out) }
     fn proof_input(name: &str, pf: &Pf<Self>, out: &mut Out) { lincode_proof_tokens(name, pf, true, out) }
+    fn mutate_comm(kind: &str, cm: &LabeledCommitment<Cm<Self>>, _args: &[String]) -> Option<LabeledCommitment<Cm<Self>>> { lincode_mutate_comm(kind, cm) }
     fn wants_sq_events() -> bool { true }
     fn reference_commitment(ck: &CK<Self>, p: &Self::P, _b: Option<usize>, cm: &Cm<Self>, _st: &St<Self>) -> Option<bool> {
         use ark_poly::MultilinearExtension;
@@ -858,6 +883,7 @@ impl Adapter for BrakedownMLA {
     }
     fn proof_obs(name: &str, pf: &Pf<Self>, out: &mut Out) { lincode_proof_tokens(name, pf, false, out) }
     fn proof_input(name: &str, pf: &Pf<Self>, out: &mut Out) { lincode_proof_tokens(name, pf, true, out) }
+    fn mutate_comm(kind: &str, cm: &LabeledCommitment<Cm<Self>>, _args: &[String]) -> Option<LabeledCommitment<Cm<Self>>> { lincode_mutate_comm(kind, cm) }
     fn wants_sq_events() -> bool { true }
     fn reference_commitment(ck: &CK<Self>, p: &Self::P, _b: Option<usize>, cm: &Cm<Self>, _st: &St<Self>) -> Option<bool> {
         use ark_poly::MultilinearExtension;
